@@ -30,7 +30,7 @@ def run(tier, seed):
                 args += ["--steps", "400"]
             else:
                 args += ["--steps", str(rng.choice([60, 120]))]
-            jobs.append(("s%d_%s" % (cpus // 2, variant), args))
+            jobs.append(("c%d_%s" % (cpus, variant), args))
     # a device that runs full in the background: writes that could not be allocated wait in their shard;
     # once deletes have made room they must reach the device without any further call
     for i in range(4 if tier == "quick" else 16):
